@@ -203,3 +203,31 @@ MANIFEST_TEXT['C17'] = dict(
     text='Coq theorems on the reconnection machine: any number of failed dials keeps the loop going; back-off doubled (plus the random range) for the first repeat attempts then constant; a restarted client has no stale abort signal (repaired F7); once idle only Start connects; Stop during a dial ends the loop when the dial fails -- and the refutation witness of "never reconnects after Stop" when that dial succeeds (open finding F26); keep-alive deadline bookkeeping (silent peer detected by last activity + wait, healthy peer never dropped). The machine is compared with the real client against a raw loopback server with parked dials; keep-alive runs in real time under a monitor.',
     note='Trusted: Coq kernel, extraction, harness; gorilla/websocket, timers and TCP are exercised, not verified. Partial as stated in DESIGN.md: the runtime half of the property (timers firing, the network noticing a reset) is observed, not proved.',
     technique='Coq proofs over a reconnection state machine and a timed deadline model + differential correspondence with a scripted raw server + real-time keep-alive monitor')
+
+
+def _c19_extra(prop, b, tier, seed):
+    import os
+    import c19lane
+    goenv = dict(os.environ, GOFLAGS='-mod=mod', GOPROXY='off', GOSUMDB='off', GOTOOLCHAIN='local')
+    static_broken = any(('AccessCheck' in f or 'Props/C19' in f or 'LockTableCheck' in f or 'AccessTable' in f) for f in (b.coq_failed or []))
+    res = c19lane.c19_extra(prop, b, tier, seed, goenv=goenv, static_broken=static_broken)
+    if static_broken:
+        res['broken'].append('lock discipline: ' + c19lane.offenders_report())
+    return res
+
+
+PROPS['C19'] = Prop('C19', harness=None, entries=[], props_file='theories/Props/C19.v', quick_n=1, thorough_n=1,
+                    trusted=['translator tools/cmd/extract/access.go: go/types over internal/callbackqueue, ws, ocppj, ocpp1.6, ocpp2.0.1 (every selector that resolves to a struct field of these packages, the mutexes syntactically held there: Lock/RLock .. Unlock, deferred unlocks, entry locksets of unexported helpers as the meet over their call sites, closures, accesses through values created in the same function = construction); locks are identified by their field, not by instance',
+                             'the step from "every recorded access holds the guard" to "every run-time access does" is the translator\'s; it is cross-checked on every run by the Go race detector on the concurrent workloads',
+                             'Go race detector (ThreadSanitizer runtime of go1.23, CGO) and the rule that attributes a report to the library',
+                             'committed list coq/theories/Spec/Concurrency.v: configuration calls made before Start; fields outside the mutex discipline with the reason (lifecycle calls, single owner goroutine, recorded finding), pinned to their recorded accesses'],
+                    assumptions=['configuration calls (Set*, With*, Add* registrations, Errors()) are made before Start, as the API documents',
+                                 'Start / Stop of one endpoint are not issued concurrently with each other, and Start only after the goroutines of the previous session ended (schedule class S0 of the endpoint model); the fields this concerns are listed in Spec/Concurrency.v under LIFECYCLE',
+                                 'struct values copied as a whole, accesses through unsafe / reflection and the internals of gorilla/websocket, logrus and the validator are outside the table',
+                                 'the race lanes sample schedules: a race that needs an interleaving they do not produce is only excluded by the static discipline'],
+                    rule='race-instrumented harness (go build -race) on: c19 = full ocpp1.6 and ocpp2.0.1 stacks over loopback (3 clients x 3 sender goroutines per direction, 30 ms timeouts, forced disconnections with reconnection, Stop with traffic outstanding), ping flood during close, concurrent writers against closes from either side, Stop during a failing reconnection dial; plus the concurrent lanes of C12 (containers), C13 (registry bursts), C15 (writers), C17 (reconnection); thorough adds the endpoint histories of M1. A case is one workload run; every race report attributed to library code is a failing schedule.',
+                    design_ref='5 C19', extra=_c19_extra)
+MANIFEST_TEXT['C19'] = dict(
+    text='Coq theorems: (1) for any number of threads and any interleaving of reader/writer-mutex operations and non-atomic accesses, a location whose every access holds its guard (exclusively for writes) is never accessed by two threads at once with one writing (invariant proof over a trace semantics of sync.RWMutex); (2) on the access table regenerated from the Go sources on every run -- every access to every struct field of internal/callbackqueue, ws, ocppj, ocpp1.6, ocpp2.0.1 with the mutexes held there -- each field is unwritten after construction and configuration, or guarded by one mutex on every access, or listed with its reason and pinned to exactly its recorded accesses; (3) the container methods take their mutex first. Tied to the code by the translator (re-run on every check) and by the Go race detector on the concurrent workloads of C12-C17 plus full-stack workloads, whose reports are the failing schedules.',
+    note='Trusted: Coq kernel + vm_compute, the go/types translator (lockset analysis is syntactic and instance-insensitive), the race detector. Partial: fields written by Start/Stop are safe only under the documented lifecycle (listed in Spec/Concurrency.v); happens-before edges other than mutexes (channel hand-off, goroutine start) are not in the trace model -- the fields that rely on them are the pinned ones. Open finding F17 (error channels closed by Stop while error() may send).',
+    technique='Coq invariant proof over a lock/access trace semantics + lock discipline decided by vm_compute on a table generated from the Go AST (go/types) + Go race detector on concurrent workloads')
